@@ -23,6 +23,7 @@ type TraceStep struct {
 	Th   int    `json:"th"`
 	Stmt string `json:"stmt"` // file:line:col of the enclosing statement of the visible op
 	Op   string `json:"op"`
+	Pos  string `json:"pos,omitempty"` // file:line of the visible operation itself
 }
 type Trace struct {
 	Harness   string         `json:"harness"`
@@ -30,6 +31,9 @@ type Trace struct {
 	Steps     []TraceStep    `json:"steps"`
 	Violation string         `json:"violation"`
 	Final     map[int]string `json:"final"` // where each unfinished thread is parked at the end of the trace
+	// Inputs: values of the harness's nondeterministic inputs and of the model's internal choices,
+	// keyed by the engine's variable name (nd!<name>!<site>, sel!..., env!...)
+	Inputs map[string][]int64 `json:"inputs,omitempty"`
 }
 
 type thr struct {
